@@ -50,6 +50,10 @@ var twoJoinShapes = []string{
 	"A | join %K(B) on k | where b > 0 | join %L(C | take 1) on $left.b == $right.c | project a, b, c",
 	"A | where a > 0 | join %K(B | join %L(C) on k) on k",
 	"A | extend d = a + 1 | join %K(B | join %L(C | where c > 0) on $left.b == $right.c | where b > 0) on k | count",
+	// three joins: in sequence, nested three deep, mixed
+	"A | join %K(B) on k | join %L(C) on $left.a == $right.c | join %M(D) on $left.b == $right.d",
+	"A | join %K(B | join %L(C | join %M(D) on $left.c == $right.d) on $left.b == $right.c) on k",
+	"A | join %K(B | join %L(C) on $left.b == $right.c) on k | where a > 0 | join %M(D | take 1) on $left.a == $right.d | count",
 }
 
 func replaceAll(s, old, new string) string {
@@ -66,12 +70,18 @@ func replaceAll(s, old, new string) string {
 	return out
 }
 
-// H_C03two checks programs with two joins (sequential and nested) for all kind combinations.
+// H_C03two checks programs with two and three joins (sequential and nested) for all kind combinations.
 func H_C03two(shape, r int) {
 	k1 := joinKinds[verif.Concrete(verif.IntRange(0, len(joinKinds)))]
 	k2 := joinKinds[verif.Concrete(verif.IntRange(0, len(joinKinds)))]
 	src := replaceAll(replaceAll(twoJoinShapes[shape], "%K", k1), "%L", k2)
+	db := joinDB(r, true)
+	if shape >= 6 {
+		k3 := joinKinds[verif.Concrete(verif.IntRange(0, len(joinKinds)))]
+		src = replaceAll(src, "%M", k3)
+		db["D"] = symbolicTable([]string{"k", "d"}, 1)
+	}
 	verif.Obs("program", src)
-	CheckPipeline(src, joinDB(r, true))
+	CheckPipeline(src, db)
 	verif.Cover("join-checked")
 }
